@@ -293,20 +293,20 @@ def _authority_grid(ctx: Context) -> None:
             tree = "async" if "._async" in f.module.name else ("sync" if "._sync" in f.module.name else "shared")
             for sk in sinks:
                 outs = {}
-                for hv in (b"example.com", b"[2001:db8::1]"):
+                for hv, port in ((b"example.com", 8080), (b"[2001:db8::1]", 8080), (b"example.com", 80), (b"[2001:db8::1]", 80)):      # 80 = the scheme's default port
                     env: dict = {"DEFAULT_PORTS.get(url.scheme)": 80, "DEFAULT_PORTS.get(self.scheme)": 80}
                     for x in own_nodes(f.node):
                         if isinstance(x, ast.Attribute) and x.attr in ("host", "port", "scheme", "target"):
-                            env[norm(x)] = {"host": hv, "port": 8080, "scheme": b"http", "target": b"/"}[x.attr]
+                            env[norm(x)] = {"host": hv, "port": port, "scheme": b"http", "target": b"/"}[x.attr]
                     if run_to(list(f.node.body), sk, env) != "hit":
                         continue
                     v = peval(sk, env)
                     if isinstance(v, bytes) and (hv.strip(b"[]") in v):
-                        outs[hv] = v
+                        outs[hv if port == 8080 else hv + b" (default port)"] = v
                 if not outs:
                     continue
                 n_eval += 1
-                bad = {hv: v for hv, v in outs.items() if v.count(hv) != 1 or b"[[" in v or b"]]" in v or (not hv.startswith(b"[") and b"[" in v)}
+                bad = {hv: v for hv, v in outs.items() if v.count(hv.split(b" ")[0]) != 1 or b"[[" in v or b"]]" in v or (not hv.startswith(b"[") and b"[" in v)}
                 rep.ob("C19.R10", f"{tree}|{f.short}|authority-grid:{norm(sk)[:50]}", not bad, where(f, sk),
                        f"`{ast.unparse(sk)[:60]}` gives {dict((k.decode(), v.decode()) for k, v in outs.items())}" if not bad else
                        f"`{ast.unparse(sk)[:60]}` gives {dict((k.decode(), v.decode()) for k, v in bad.items())}: a host that is already an IP-literal in brackets (explicit URL components, "
